@@ -35,7 +35,7 @@ func runC14(c *Ctx) {
 	nSink := 0
 	for _, cs := range callsIn(child, "var:internal/crashmonitor.incrementCounter") {
 		nSink++
-		a := cs.Common().Args[0]
+		a := argsOf(cs)[0]
 		d := describe(a)
 		_, isC := constOf(a)
 		ok := isC || d == "internal/crashmonitor.telemetryCounterName(io.ReadAll(*global:os.Stdin)#0)#0" || (strings.HasPrefix(d, "internal/crashmonitor.telemetryCounterName(") && strings.HasSuffix(d, ")#0"))
@@ -45,9 +45,9 @@ func runC14(c *Ctx) {
 	// incrementCounter's initialiser: counter.New(name).Inc(); other counter sinks in the package
 	for _, fn := range m.PkgFuncs("internal/crashmonitor") {
 		for _, cs := range callsIn(fn, "internal/counter.New", "internal/counter.NewStack", "counter.New", "counter.NewStack") {
-			d := describe(cs.Common().Args[0])
-			_, isC := constOf(cs.Common().Args[0])
-			_, isOwnParam := cs.Common().Args[0].(*ssa.Parameter)
+			d := describe(argsOf(cs)[0])
+			_, isC := constOf(argsOf(cs)[0])
+			_, isOwnParam := argsOf(cs)[0].(*ssa.Parameter)
 			okInit := isC || (isOwnParam && strings.Contains(fname(fn), "init$"))
 			r.Check("C14.no-text-flow", "counter created in "+fname(fn), m.Pos(cs.Pos()), okInit, "counters of the crash monitor are created only by incrementCounter(name) or with constant names; got "+d)
 		}
@@ -68,7 +68,7 @@ func runC14(c *Ctx) {
 		okEnc := isCall && calleeName(&cl.Call) == "internal/counter.EncodeStack"
 		if okEnc {
 			enc = cl
-			pk, isC := constOf(cl.Call.Args[1])
+			pk, isC := constOf(argsOf(cl)[1])
 			okEnc = isC && pk == "crash/crash"
 		}
 		r.Check("C14.no-text-flow", "telemetryCounterName/returns EncodeStack(pcs, constant prefix)", m.Pos(ret.Pos()), okEnc, "got "+describe(v))
@@ -81,13 +81,13 @@ func runC14(c *Ctx) {
 			facts []Fact
 		}
 		var edges []edge
-		if phi, ok := strip(enc.Call.Args[0]).(*ssa.Phi); ok {
+		if phi, ok := strip(argsOf(enc)[0]).(*ssa.Phi); ok {
 			for i, e := range phi.Edges {
 				pred := phi.Block().Preds[i]
 				edges = append(edges, edge{e, append(blockFacts(pred), lastBranchFact(pred, phi.Block())...)})
 			}
 		} else {
-			edges = append(edges, edge{enc.Call.Args[0], factsAt(enc)})
+			edges = append(edges, edge{argsOf(enc)[0], factsAt(enc)})
 		}
 		for _, e := range edges {
 			p := newProver()
@@ -346,7 +346,7 @@ func callProvenance(cl *ssa.Call, idx int, fn *ssa.Function, seen map[ssa.Value]
 	case "internal/crashmonitor.sentinel":
 		return "" // this process' own text address
 	case "builtin:len", "builtin:cap":
-		if isStringy(cl.Call.Args[0].Type()) || isByteSlice(cl.Call.Args[0].Type()) {
+		if isStringy(argsOf(cl)[0].Type()) || isByteSlice(argsOf(cl)[0].Type()) {
 			return "length of crash text"
 		}
 		return ""
@@ -380,7 +380,7 @@ func constOnlyCondition(cond ssa.Value) (bool, string) {
 		n := calleeName(&x.Call)
 		switch n {
 		case "strings.HasPrefix", "strings.HasSuffix", "strings.Contains":
-			_, isC := constOf(x.Call.Args[1])
+			_, isC := constOf(argsOf(x)[1])
 			return isC, n + " with a constant"
 		}
 		return false, "call " + n
@@ -388,7 +388,7 @@ func constOnlyCondition(cond ssa.Value) (bool, string) {
 		// ok results of strings.Cut(line, const), comma-ok forms
 		if cl, ok := x.Tuple.(*ssa.Call); ok {
 			if calleeName(&cl.Call) == "strings.Cut" {
-				_, isC := constOf(cl.Call.Args[1])
+				_, isC := constOf(argsOf(cl)[1])
 				return isC, "Cut with a constant separator"
 			}
 		}
